@@ -31,6 +31,8 @@ var LibModels = []string{
 	"bufio.Scanner.Scan: every successful Scan decreases a non-negative ghost count (a scanner delivers finitely many tokens); token contents are uninterpreted",
 	"bufio.Reader: ideal byte stream (ghost content, position, peeked-byte count, sticky failure flag); ReadByte/Peek/UnreadByte/io.ReadFull move the position as documented; reads fail at the end of the data or, stickily, on an I/O error",
 	"io.ReadFull/ReadAtLeast: 0 <= n <= len(buf), err == nil exactly when the window was filled (ReadFull); the window's bytes become unknown",
+	"Read(p) / ReadAt(p, off) methods of library readers (io.Reader, io.ReaderAt): 0 <= n <= len(p); the buffer's bytes become unknown",
+	"Seek(offset, whence) methods of library seekers (io.Seeker): the offset returned without an error is not negative",
 	"other strings/strconv/unicode/utf8/math/path functions: uninterpreted deterministic functions of their arguments",
 }
 
@@ -552,6 +554,23 @@ func (x *Exec) libCall(key string, fn *types.Func, call *ast.CallExpr, recvExpr 
 		var out []Term
 		for i := 0; i < sig.Results().Len(); i++ {
 			out = append(out, x.fresh(fmt.Sprintf("%s_r%d", fn.Name(), i), sig.Results().At(i).Type()))
+		}
+		// io.Reader / io.ReaderAt: the count returned is within the buffer handed in
+		if (fn.Name() == "Read" || fn.Name() == "ReadAt") && len(call.Args) >= 1 && len(out) == 2 && out[0].Sort == SInt && !x.termMode {
+			if t := info.TypeOf(call.Args[0]); t != nil {
+				if sl, isSl := t.Underlying().(*types.Slice); isSl {
+					if b, isB := sl.Elem().Underlying().(*types.Basic); isB && b.Kind() == types.Uint8 {
+						x.quiet++
+						buf := x.eval(call.Args[0], env)
+						x.quiet--
+						x.W.AddFact(env.pc, And(Cmp(">=", out[0], IntLit(0)), Cmp("<=", out[0], x.W.SeqLen(buf))))
+					}
+				}
+			}
+		}
+		// io.Seeker: a successful Seek returns the new offset, which is not negative
+		if fn.Name() == "Seek" && len(out) == 2 && out[0].Sort == SInt && out[1].Sort == SBool && !x.termMode {
+			x.W.AddFact(env.pc, Implies(Not(out[1]), Cmp(">=", out[0], IntLit(0))))
 		}
 		x.W.Note("library call abstracted (results and pointer arguments havocked): " + key)
 		if recvExpr != nil && isAddressable(recvExpr) {
